@@ -175,10 +175,12 @@ def table_guard(ck, stage, pe_obj, b, model=None):
     want = sh_view(pe_obj)
     shs = pe_obj.SHList.shlist
     first_off = min((s.offset for s in shs if s.rawsize), default=0)
-    cause = "table-overlaps-section-data" if end > first_off else "no-overlap"
+    overlap = end > first_off
+    # one root cause, one signature: the table is laid over section data (whichever of the two is then seen damaged)
+    overlap_sig = "%s:section-table-overlaps-section-data:w%d" % (stage, ck.spec[0])
     if raw != want:
         k = next((i for i in range(min(len(raw), len(want))) if raw[i] != want[i]), min(len(raw), len(want)))
-        ck.bad(stage, "section-table-clobbered:%s" % cause,
+        (ck.bad_sig if overlap else ck.bad)(*((overlap_sig,) if overlap else (stage, "section-table-clobbered:no-overlap")),
                "section table occupies file offsets up to %#x but section data starts at file offset %#x: header %d "
                "serialised as %r, the object says %r" % (end, first_off, k, raw[k] if k < len(raw) else None,
                                                        want[k] if k < len(want) else None))
@@ -192,7 +194,7 @@ def table_guard(ck, stage, pe_obj, b, model=None):
                 got = bytes(b[s.offset:s.offset + n])
                 k = next(j for j in range(n) if got[j] != m["vdata"][j])
                 under = s.offset + k < end
-                ck.bad(stage, "section-data-clobbered:%s" % (cause if under else "elsewhere:" + sec_class(m)),
+                (ck.bad_sig if (under and overlap) else ck.bad)(*((overlap_sig,) if (under and overlap) else (stage, "section-data-misplaced:" + sec_class(m))),
                        "file-backed bytes of section %d (file offset %#x, %#x bytes) are not in the serialised image: "
                        "at +%#x %r instead of %r; the section table ends at file offset %#x" % (
                            i, s.offset, n, k, got[k:k + 8], m["vdata"][k:k + 8], end))
@@ -200,7 +202,7 @@ def table_guard(ck, stage, pe_obj, b, model=None):
                 break
         if ok and end > first_off:
             # the table lies over the directory section (every content section is empty)
-            ck.bad(stage, "section-data-clobbered:%s" % cause,
+            ck.bad_sig(overlap_sig,
                    "section table occupies file offsets up to %#x but the data of the directory section starts at "
                    "file offset %#x" % (end, first_off))
             ok = False
@@ -216,6 +218,9 @@ class Ck(object):
         self.spec = spec
         self.vs = []
         self.base_sig = "w%d/%s" % (spec[0], pegen.HDR_NAMES[spec[1]])
+
+    def bad_sig(self, sig, what):
+        self.vs.append(violation(sig, "%s [spec %r]" % (what, self.spec), {"spec": self.spec}))
 
     def bad(self, stage, skel, what):
         self.vs.append(violation("%s:%s:%s" % (stage, skel, self.base_sig),
